@@ -33,6 +33,7 @@ from oqupy.control import Control
 from vf.core import Case, Ob
 from vf import lib
 from vf.poly import ob_eq_poly
+from vf.pointcheck import Guard
 
 ASSUMPTIONS = [
     "exact real/complex arithmetic (floating-point rounding of tensor arithmetic outside the claim)",
@@ -220,14 +221,20 @@ class H1(Case):
                                   progress_type="silent")
         obs = [Ob.holds("gradient shape", tuple(grad.shape) == (2 * N, D * D))]
         exp = oracle_derivs(inp, rho0, envs, P1, P2, target, N, pre, post, self.steps())
+        guard = Guard(inp)
         for n in self.steps():
             for half in (0, 1):
                 got = np.asarray(grad[2 * n + half]).reshape(D, D)
                 # row 2n+half of the gradient vs derivative of the forward contraction w.r.t. the
                 # first/second half-step propagator of step n (polynomial identity: normal form by z3's
                 # sum-of-monomials rewriter, see vf/poly.py)
-                mk = ob_eq_poly if self.som else (lambda i_, label, g, e: Ob.eq(label, g, e))
-                obs.append(mk(inp, "dZ/dP%d[%d]" % (half + 1, n), got, exp[(n, half)]))
+                # exact evaluation at rational points first (vf/pointcheck.py); only an obligation that
+                # survives it is normalised / handed to the solver
+                label = "dZ/dP%d[%d]" % (half + 1, n)
+                ob = guard.refute(Ob.eq(label, got, exp[(n, half)]))
+                if self.som and type(ob) is Ob:
+                    ob = ob_eq_poly(inp, label, got, exp[(n, half)])
+                obs.append(ob)
         return obs
 
 
@@ -299,7 +306,7 @@ class H2(Case):
                     X1, X2 = (dP, P2[n]) if half == 0 else (P1[n], dP)
                     e = lib.einsum("abcd,ba,dc->", A[n], X1, X2)
                     obs.append(Ob.eq("row %d param %d" % (2 * n + half, j), grad[2 * n + half][j], e))
-        return obs
+        return Guard(inp).all(obs)
 
 
 # --------------------------------------------------------------------------
@@ -344,7 +351,7 @@ class H3(Case):
         for n in range(min(len(a), len(b))):
             obs.append(Ob.eq("state %d" % n, a[n], b[n]))
         obs.append(Ob.eq("final_state", final, b[-1]))
-        return obs
+        return Guard(inp).all(obs)
 
 
 class H4(Case):
@@ -383,7 +390,7 @@ class H4(Case):
         if seen:
             obs.append(Ob.eq("callable receives the final state", seen[0], final))
         obs.append(Ob.eq("return value used as target", res["gradient"], ref["gradient"]))
-        return obs
+        return Guard(inp).all(obs)
 
 
 # --------------------------------------------------------------------------
